@@ -97,6 +97,9 @@ func genCase(t *rapid.T) Case {
 	}
 	c.Ctx = gen.Context(t, 400)
 	c.X = arith.ReduceOperand(t, c.Ctx)
+	if c.Kind == "ctxreduce" && gen.Pick(t, 8, "p0") == 1 {
+		c.Ctx.P = 0 // rounding disabled: only the exponent limits apply (as in BaseContext)
+	}
 	if c.Kind == "decreduce" && gen.Pick(t, 8, "special") == 0 {
 		c.X = gen.Special(t, "xs")
 	}
@@ -203,7 +206,18 @@ func check(c Case, st *core.Stats) error {
 		}
 		return fmt.Errorf("Context.Reduce %v: unexpected error %v", c, o.Err)
 	}
+	// the form of the result is prescribed whatever the value is (also where the model does
+	// not define the value, e.g. rounding disabled and the operand outside the exponent range)
+	if d.Form == apd.Finite {
+		if d.Coeff.Sign() == 0 && d.Exponent != 0 {
+			return fmt.Errorf("Context.Reduce(%v) ctx=%v = %s: a zero result must have exponent 0", c.X, c.Ctx, core.Show(d))
+		}
+		if d.Coeff.Sign() != 0 && trailingZeros(d.Coeff.MathBigInt()) != 0 {
+			return fmt.Errorf("Context.Reduce(%v) ctx=%v = %s: coefficient still has trailing zeros", c.X, c.Ctx, core.Show(d))
+		}
+	}
 	if !e.Defined {
+		st.Class("ctxreduce-value-not-modelled")
 		return nil
 	}
 	if !ref.SameValue(d, e.R) {
